@@ -49,6 +49,12 @@ pub struct Game {
     /// C13: the k-th simulation (k>=2) of frame X yields a perturbed state
     pub nondet: Option<(i32, u32)>,
     pub first_sim_of_zero_seen: bool,
+    /// false: states are saved WITHOUT a checksum (legitimate when desync detection is off)
+    pub save_checksum: bool,
+    /// true (C02's oracle): a load of a cell that does not hold the state of that frame on the current timeline is an
+    /// error; false: the game loads whatever the cell holds, as a real game would, and the other oracles judge the outcome
+    pub strict_cells: bool,
+    pub stale_loads: u64,
 }
 
 impl Game {
@@ -71,6 +77,9 @@ impl Game {
             diverge_from: None,
             nondet: None,
             first_sim_of_zero_seen: false,
+            save_checksum: true,
+            strict_cells: true,
+            stale_loads: 0,
         };
         g.states.push_back(g.st);
         g
@@ -159,7 +168,7 @@ impl Game {
                     self.c.saves += 1;
                     h = mix(h, (1 << 60) | frame as u64);
                     self.checksums.insert(frame, st.checksum());
-                    cell.save(frame, Some(st), Some(st.checksum()));
+                    cell.save(frame, Some(st), if self.save_checksum { Some(st.checksum()) } else { None });
                     self.cells.insert(frame, cell);
                     self.ensure(frame);
                     let i = (frame - self.base) as usize;
@@ -181,6 +190,9 @@ impl Game {
                         return Err(format!("LoadGameState({frame}) is not earlier than the game frame {}", st.frame));
                     }
                     match self.state(frame) {
+                        Some(want) if want != s && !self.strict_cells => {
+                            self.stale_loads += 1;
+                        }
                         Some(want) if want != s => {
                             return Err(format!("LoadGameState({frame}): the cell holds a stale state (not the state of frame {frame} on the current timeline)"));
                         }
